@@ -3590,6 +3590,7 @@ async def _helper_rename_inbox(inbox: Mailbox, new_name: str) -> None:
         new_mbox.uids = uids
         new_mbox.sequences = sequences
         new_mbox.msg_keys = new_msg_keys
+        new_mbox.num_msgs = len(new_msg_keys)
         new_mbox._rebuild_index_dicts()
         new_mbox.optional_resync = False
         new_mbox.set_sequences_in_folder(sequences)
